@@ -425,7 +425,7 @@ def streams(ctx):
     for s in all_strings(ALPHA_CORE, n_core):
         if len(s) > n_full:
             yield f'exhaustive-core<={n_core}', s
-    n_st = 5 if quick else 6
+    n_st = 5 if quick else 7
     for s in all_strings(ALPHA_STEREO, n_st):
         if s[0] in 'CN[' and ('/' in s or '\\' in s or '@' in s):
             yield f'exhaustive-stereo<={n_st}', s
